@@ -294,6 +294,112 @@ theorem resolve_layout_independent_declared (t : Tab) (names : List String) (h1 
 
 theorem predeclare_tie : Gen.predeclaresFuncs = true := by decide
 
+/-- what happens to the table while the bodies of a loaded package are compiled: a body is compiled (its types come
+    and go), or an identifier that is found nowhere is entered as a forward reference - which happens only to
+    identifiers that are not builtins (the builtin is found first) -/
+def BodyEv (base : Tab) : Ev → Prop
+  | .compile f _ => f ≠ ""
+  | .addKey (.glob x) => Key.builtin x ∉ base.keys
+  | .addKey _ => False
+
+theorem builtin_mem_step (t : Tab) (base : Tab) (e : Ev) (he : BodyEv base e) (x : String) :
+    Key.builtin x ∈ (step t e).keys ↔ Key.builtin x ∈ t.keys := by
+  cases e with
+  | compile f tys => exact compile_keeps t f tys (.builtin x) (fun ty => by simp)
+  | addKey k =>
+    cases k with
+    | glob y =>
+      simp only [step]
+      split
+      · rfl
+      · simp
+    | dollar => exact absurd he (by simp [BodyEv])
+    | ltype f ty => exact absurd he (by simp [BodyEv])
+    | builtin y => exact absurd he (by simp [BodyEv])
+
+theorem builtin_mem_foldl (base : Tab) (h : List Ev) (hh : ∀ e ∈ h, BodyEv base e) (t : Tab) (x : String) :
+    Key.builtin x ∈ (h.foldl step t).keys ↔ Key.builtin x ∈ t.keys := by
+  induction h generalizing t with
+  | nil => rfl
+  | cons e es ih =>
+    simp only [List.foldl_cons]
+    rw [ih (fun e' he' => hh e' (List.mem_cons_of_mem _ he')) (step t e)]
+    exact builtin_mem_step t base e (hh e List.mem_cons_self) x
+
+/-- a package-level key that appears while bodies are compiled belongs to an identifier that is not a builtin -/
+theorem glob_new_step (t : Tab) (base : Tab) (e : Ev) (he : BodyEv base e) (x : String)
+    (hm : Key.glob x ∈ (step t e).keys) : Key.glob x ∈ t.keys ∨ Key.builtin x ∉ base.keys := by
+  cases e with
+  | compile f tys => exact Or.inl ((compile_keeps t f tys (.glob x) (fun ty => by simp)).mp hm)
+  | addKey k =>
+    cases k with
+    | glob y =>
+      simp only [step] at hm
+      split at hm
+      · exact Or.inl hm
+      · rcases List.mem_cons.mp hm with h | h
+        · cases h; exact Or.inr he
+        · exact Or.inl h
+    | dollar => exact absurd he (by simp [BodyEv])
+    | ltype f ty => exact absurd he (by simp [BodyEv])
+    | builtin y => exact absurd he (by simp [BodyEv])
+
+theorem glob_new_foldl (base : Tab) (h : List Ev) (hh : ∀ e ∈ h, BodyEv base e) (t : Tab) (x : String)
+    (hm : Key.glob x ∈ (h.foldl step t).keys) : Key.glob x ∈ t.keys ∨ Key.builtin x ∉ base.keys := by
+  induction h generalizing t with
+  | nil => exact Or.inl hm
+  | cons e es ih =>
+    simp only [List.foldl_cons] at hm
+    rcases ih (fun e' he' => hh e' (List.mem_cons_of_mem _ he')) (step t e) hm with h | h
+    · exact glob_new_step t base e (hh e List.mem_cons_self) x h
+    · exact Or.inr h
+
+/-- **package_layout_independent.** A loaded package: `base` is the table before it (builtins, earlier packages),
+    `names` the package-level names that `declareFuncs` enters first; then bodies are compiled in some order, entering
+    forward references as they go. For ANY two such histories - two orders of the declarations, two splits into
+    files - every identifier in every body resolves alike, provided the two agree on the types the body itself has
+    declared so far. No hypothesis about builtins is left: a name of the package hides a builtin in both layouts, and
+    a builtin that the package does not declare is the builtin in both. -/
+theorem package_layout_independent (base : Tab) (names : List String) (h1 h2 : List Ev)
+    (b1 : ∀ e ∈ h1, BodyEv base e) (b2 : ∀ e ∈ h2, BodyEv base e) (c : Ctx) (x : String)
+    (hl : Key.ltype c.fn x ∈ (h1.foldl step (predeclare base names)).keys ↔
+          Key.ltype c.fn x ∈ (h2.foldl step (predeclare base names)).keys) :
+    resolve (h1.foldl step (predeclare base names)) c x = resolve (h2.foldl step (predeclare base names)) c x := by
+  -- the builtins are those of `base` in both tables
+  have pb : ∀ y, Key.builtin y ∈ (predeclare base names).keys ↔ Key.builtin y ∈ base.keys := by
+    intro y
+    unfold predeclare
+    have : ∀ (ns : List String) (t : Tab), Key.builtin y ∈ (ns.foldl (fun t n => step t (.addKey (.glob n))) t).keys ↔ Key.builtin y ∈ t.keys := by
+      intro ns
+      induction ns with
+      | nil => intro t; rfl
+      | cons n ns ih =>
+        intro t
+        simp only [List.foldl_cons]
+        rw [ih]
+        simp only [step]
+        split
+        · rfl
+        · simp
+    exact this names base
+  have hb1 := builtin_mem_foldl base h1 b1 (predeclare base names) x
+  have hb2 := builtin_mem_foldl base h2 b2 (predeclare base names) x
+  apply resolve_layout_independent _ _ c x hl (by rw [hb1, hb2])
+  intro hbx
+  have hbase : Key.builtin x ∈ base.keys := (pb x).mp (hb1.mp hbx)
+  -- an identifier that is a builtin has its package-level key iff it had it after the declaration of the names
+  have key : ∀ (h : List Ev), (∀ e ∈ h, BodyEv base e) →
+      (Key.glob x ∈ (h.foldl step (predeclare base names)).keys ↔ Key.glob x ∈ (predeclare base names).keys) := by
+    intro h hh
+    constructor
+    · intro hm
+      rcases glob_new_foldl base h hh _ x hm with h' | h'
+      · exact h'
+      · exact absurd hbase h'
+    · exact glob_mem_foldl h _ x
+  rw [key h1 b1, key h2 b2]
+
+
 -- non-vacuity: the builtin is in the table, the function is declared after its caller
 example : resolve ([Ev.compile "app.Use" [], .compile "app.println" []].foldl step
       (predeclare { keys := [.builtin "println"], compiled := [] } ["Use", "println", "Main"]))
@@ -323,3 +429,6 @@ end Goat.Props.C16
 #print axioms Goat.Props.C16.declared_function_resolves_to_package
 #print axioms Goat.Props.C16.resolve_layout_independent_declared
 #print axioms Goat.Props.C16.predeclare_tie
+#print axioms Goat.Props.C16.builtin_mem_foldl
+#print axioms Goat.Props.C16.glob_new_foldl
+#print axioms Goat.Props.C16.package_layout_independent
